@@ -353,7 +353,7 @@ func (e *Engine) evalEmitOnce(runs []emitRun) []emitObl {
 				}
 			}
 			ok := all["in.mp0.Key"] && all["in.mp1.Key"] && all["in.mp2.Key"] && all["in.mp3.Key"]
-			add(base+":pair", []string{"C05", "C02"}, ok, "every key of the match table must reach the dispatch code")
+			add(base+":pair", []string{"C05", "C02", "C07"}, ok, "every key of the match table must reach the dispatch code")
 		}
 		if r.cell.LenAttr && r.entry.Dir == "enc" {
 			all := map[string]bool{}
@@ -415,6 +415,49 @@ func (e *Engine) evalEmitOnce(runs []emitRun) []emitObl {
 					okT = false
 				}
 			}
+			// the back-patch is unconditional: the last line that mentions the length field sits at the nesting
+			// depth of the first line of the step (not inside the `if target != nil` / `is not None` block that
+			// guards the target's own encoding) - otherwise an absent target leaves the caller's stored value
+			// on the wire
+			okG, detG := true, ""
+			for _, pt := range r.paths {
+				lines := strings.Split(flatText(pt.text), "\n")
+				last, first := -1, -1
+				for i, l := range lines {
+					if first < 0 && strings.Contains(l, "in.f.Name") {
+						first = i // the first statement of the step that names the target (position / start mark)
+					}
+					if strings.Contains(l, "in.l.Name") {
+						last = i
+					}
+				}
+				if last < 0 || first < 0 || last <= first {
+					continue
+				}
+				if r.entry.Lang == "python" {
+					ind := func(l string) int { return len(l) - len(strings.TrimLeft(l, " \t")) }
+					if ind(lines[last]) > ind(lines[first]) {
+						okG, detG = false, "the back-patch line is indented deeper than the target's start mark: "+truncate(strings.TrimSpace(lines[last]), 160)
+					}
+					continue
+				}
+				depthAt := func(n int) int {
+					d := 0
+					for i := 0; i < n; i++ {
+						d += strings.Count(lines[i], "{") - strings.Count(lines[i], "}")
+					}
+					lead := strings.TrimSpace(lines[n])
+					for strings.HasPrefix(lead, "}") { // a closing brace leading the line closes before it
+						d--
+						lead = strings.TrimSpace(lead[1:])
+					}
+					return d
+				}
+				if db, df := depthAt(last), depthAt(first); db > df {
+					okG, detG = false, fmt.Sprintf("the back-patch line is nested %d block(s) deeper than the target's start mark: %s", db-df, truncate(strings.TrimSpace(lines[last]), 160))
+				}
+			}
+			add(base+":backpatch-unguarded", []string{"C04"}, okG, detG)
 			add(base+":backpatch-target", []string{"C04"}, okT, "no line of the emitted text relates the length field to the target field: the length is not measured over the target's own encoding")
 		}
 	}
